@@ -286,6 +286,17 @@ class World:
                 finally:
                     self._sync_order(o.id)
                 return ["unit"]
+            if k == "addmany":
+                # the bulk insertion inherited from AbstractObjectStore: store.update(iterable of several objects)
+                objs = [self.obj(r) for r in op[2]]
+                if any(o is None for o in objs):
+                    return ["bad-ref"]
+                try:
+                    self.store(op[1]).update(objs if len(objs) % 2 else iter(objs))
+                finally:
+                    for o in objs:
+                        self._sync_order(o.id)
+                return ["unit"]
             if k == "get":
                 self.known[hash_of(op[2])] = op[2]
                 return ["obj", self.ref_of(self.store(op[1]).get_identifiable(op[2]))]
@@ -369,6 +380,8 @@ def gen_history(rng: random.Random, w: World, length: int, ninst: int, ids: List
             op = ["new", rng.choice(ids), ver[0]]
         elif x < 0.27:
             op = ["add", k, rng.choice(lv)]
+            if rng.random() < 0.25 and len(lv) >= 2:
+                op = ["addmany", k, rng.sample(lv, rng.choice([2, 2, 3]) if len(lv) >= 3 else 2)]
         elif x < 0.47:
             op = ["get", k, rng.choice(ids)]
         elif x < 0.55:
@@ -399,7 +412,7 @@ def gen_history(rng: random.Random, w: World, length: int, ninst: int, ids: List
 
 
 def nontrivial(ops: List[List[Any]]) -> bool:
-    insts = {op[1] for op in ops if op[0] in ("add", "get", "discard", "iter")}
+    insts = {op[1] for op in ops if op[0] in ("add", "addmany", "get", "discard", "iter")}
     return len(insts) >= 2 or any(op[0] == "gc" for op in ops)
 
 
@@ -807,6 +820,8 @@ def check_sequence(ops: List[List[Any]]) -> Optional[C.Failing]:
                 continue
             if k in ("add", "discard", "contains_obj") and w.obj(op[2]) is None:
                 continue
+            if k == "addmany" and any(w.obj(r) is None for r in op[2]):
+                continue
             out = w.step(op)
             if k == "new":
                 r = out[1]
@@ -830,6 +845,23 @@ def check_sequence(ops: List[List[Any]]) -> Optional[C.Failing]:
                     attached[r] = True
                     if w.obj(r).source == "":
                         return fail("add:source-not-set", "source empty after add", oi)
+            elif k == "addmany":
+                # reference: one add after the other; the first duplicate is reported, what came before it is stored, nothing after it
+                dup = False
+                for r in op[2]:
+                    i = oid[r]
+                    if i in m:
+                        dup = True
+                        break
+                    m[i] = local[r]
+                    attached[r] = True
+                    if w.obj(r).source == "":
+                        return fail("addmany:source-not-set", f"object #{r} of a bulk insertion was stored but has no source", oi)
+                if dup and out != ["raise", "KeyError"]:
+                    return fail("addmany:duplicate-not-reported", f"bulk insertion {op[2]} meets the stored id {i!r} but gave {out}", oi, out,
+                                ["raise", "KeyError"])
+                if not dup and out != ["unit"]:
+                    return fail("addmany:raises:" + str(out[-1]), f"bulk insertion of new ids gave {out}", oi, out, ["unit"])
             elif k == "get":
                 i = op[2]
                 if i not in m:
@@ -913,7 +945,7 @@ def check_sequence(ops: List[List[Any]]) -> Optional[C.Failing]:
                     ident[(op[1], o.id)] = r
                     local[r], attached[r], oid[r] = m[o.id], True, o.id
             # a later-opened instance must see the same map
-            if k in ("add", "commit", "discard") and oi % 3 == 0:
+            if k in ("add", "addmany", "commit", "discard") and oi % 3 == 0:
                 late = w.lf.LocalFileObjectStore(w.dir)
                 for i in set(m) | {oid[r] for r in oid}:
                     if (i in late) != (i in m):
